@@ -641,10 +641,19 @@ def statements() -> list[dict]:
         if uses and top_ok:
             variants.append(("top", stmt, 0, hdr, 0))
             variants.append(("top-late", stmt, 0, HEADER_PAD + hdr, len(HEADER_PAD)))
-        for tag, src, off, header, hoff in variants:
+            if "#deepdefine" in hdr:
+                # the definition on header line 2, 3, 4 over a one-line source: cited line = last line + 0 / 1 / 2
+                for k in (1, 2, 3):
+                    variants.append((f"top-pad{k}", stmt, 0, "// pad\n" * k + hdr, 7 * k))
+        for vn, (tag, src, off, header, hoff) in enumerate(variants):
             out.append(dict(name=f"stmt.header5.{n}.{tag}", src=src, header=header, pack_format=None, origin="statements",
                             kind="header-uses" if uses else "header-late", span=(off, off + len(stmt)),
-                            header_span=(hoff, len(header)), header_lines=True))
+                            header_span=(hoff, len(header)), header_lines=True,
+                            # the variants differ only in the padding in front of the same directives: the quick tier edits
+                            # the header TOKENS of one variant per entry (the first padded one); every variant keeps the edits
+                            # of its source and of its header LINES (from the last padding line on)
+                            header_first_line=max(0, header[:hoff].count("\n") - 1),
+                            quick_skip_header_tokens=tag != ("fn-late" if not top_only else "top-late")))
     return out
 
 
